@@ -132,6 +132,19 @@ func newPackage(program *loader.Program, pkgInfo *loader.PackageInfo, plugins []
 		reserved[name] = struct{}{}
 		declared[name] = struct{}{}
 	}
+	// A function that the user wrote by hand can be missing above: when an old derived.gen.go declares the name too
+	// and is met first, the scope holds that declaration, which was left out.
+	for _, file := range pkgInfo.Files {
+		if f := program.Fset.File(file.Pos()); f == nil || filepath.Base(f.Name()) == derivedFilename {
+			continue
+		}
+		for _, d := range file.Decls {
+			if fn, isFunc := d.(*ast.FuncDecl); isFunc && fn.Recv == nil {
+				reserved[fn.Name.Name] = struct{}{}
+				declared[fn.Name.Name] = struct{}{}
+			}
+		}
+	}
 	// So are the names under which the files of the package import other packages, and what a dot import brings along:
 	// a function of the package cannot bear one of them either.
 	for _, file := range pkgInfo.Files {
